@@ -155,7 +155,8 @@ from TotalDepth.RP66V1.core import LogicalFile
 
 
 def _split(tokens, vr_each):
-    """tokens: list of 'F' (FILE-HEADER + ORIGIN), 'G' (FILE-HEADER, encrypted record, ORIGIN), 'P' (PARAMETER EFLR), 'X' (encrypted record)."""
+    """tokens: list of 'F' (FILE-HEADER + ORIGIN), 'G' (FILE-HEADER, encrypted record, ORIGIN), 'P' (PARAMETER EFLR), 'X' (encrypted record),
+    'O' (a further ORIGIN record in the same logical file), 'W' (a WELL-REFERENCE record)."""
     recs = []
     model = []            # per logical file: list of expected set types
     idx_of = []           # record index (in recs) of every expected EFLR, per logical file
@@ -169,6 +170,15 @@ def _split(tokens, vr_each):
                 recs.append(F.record(True, 5, b'\x9c' * 21, encrypted=True, new_vr=vr_each))
             idx_of[-1].append(len(recs))
             recs.append(F.record(True, 1, F.origin(), new_vr=vr_each))
+        elif t == 'O':
+            model[-1].append(b'ORIGIN')
+            idx_of[-1].append(len(recs))
+            recs.append(F.record(True, 1, F.origin(b'SECOND-ORIGIN-%d' % k), new_vr=vr_each))
+            k += 1
+        elif t == 'W':
+            model[-1].append(b'WELL-REFERENCE')
+            idx_of[-1].append(len(recs))
+            recs.append(F.record(True, 1, F.eflr(b'WELL-REFERENCE', [(b'PERMANENT-DATUM', F.ASCII)], [((2, 0, b'WR'), [[b'MSL']])]), new_vr=vr_each))
         elif t == 'P':
             model[-1].append(b'PARAMETER')
             idx_of[-1].append(len(recs))
@@ -192,13 +202,13 @@ def _split(tokens, vr_each):
 def logical_file_split(n: int, t1: int, t2: int, t3: int, t4: int, g0: bool, vr_each: bool) -> bool:
     """
     pre: 0 <= n <= 4
-    pre: 0 <= t1 <= 3 and 0 <= t2 <= 3 and 0 <= t3 <= 3 and 0 <= t4 <= 3
+    pre: 0 <= t1 <= 5 and 0 <= t2 <= 5 and 0 <= t3 <= 5 and 0 <= t4 <= 5
     pre: PART < 0 or (2 if g0 else 0) + (1 if vr_each else 0) + 4 * t1 == PART
     post: _
     """
-    n, t1, t2, t3, t4 = mark.pick(n, 0, 4), mark.pick(t1, 0, 3), mark.pick(t2, 0, 3), mark.pick(t3, 0, 3), mark.pick(t4, 0, 3)
+    n, t1, t2, t3, t4 = mark.pick(n, 0, 4), mark.pick(t1, 0, 5), mark.pick(t2, 0, 5), mark.pick(t3, 0, 5), mark.pick(t4, 0, 5)
     g0, vr_each = mark.pickb(g0), mark.pickb(vr_each)
-    names = 'FGPX'
+    names = 'FGPXOW'
     tokens = ['G' if g0 else 'F'] + [names[t] for t in (t1, t2, t3, t4)][:n]
     with mark.untraced():
         return _split(tokens, vr_each)
